@@ -233,46 +233,60 @@ _fl = z3.Const("_fl", LForm.sort)
 TH.axiom([_fl], f_andl(_fl), M(f_andl(_fl)) == MAll(_fl, LForm.len(_fl)), "M.andl")
 TH.axiom([_fl], f_orl(_fl), M(f_orl(_fl)) == MAny(_fl, LForm.len(_fl)), "M.orl")
 
-# membership in an integer list, as a defined predicate with a witness function
-mem_Int = z3.Function("mem_Int", LInt.sort, Int, Bool)
-memw_Int = z3.Function("memw_Int", LInt.sort, Int, Int)
-_mk = z3.Const("_mem_keys", LInt.sort)
-_mi, _mx = z3.Ints("_mem_i _mem_x")
-TH.axiom(
-    [_mk, _mx],
-    mem_Int(_mk, _mx),
-    z3.Implies(
-        mem_Int(_mk, _mx),
-        z3.And(0 <= memw_Int(_mk, _mx), memw_Int(_mk, _mx) < LInt.len(_mk), LInt.at(_mk, memw_Int(_mk, _mx)) == _mx),
-    ),
-    "mem.elim",
-)
-TH.axiom(
-    [_mk, _mx, _mi],
-    [mem_Int(_mk, _mx), LInt.at(_mk, _mi)],
-    z3.Implies(z3.And(0 <= _mi, _mi < LInt.len(_mk), LInt.at(_mk, _mi) == _mx), mem_Int(_mk, _mx)),
-    "mem.intro",
-)
+# membership in a list, as a defined predicate with a witness function (per element sort)
+_mem_cache: dict = {}
+
+
+def mem_theory(elem_sort):
+    key = elem_sort.name()
+    if key in _mem_cache:
+        return _mem_cache[key]
+    LT = list_theory(elem_sort)
+    mem = z3.Function(f"mem_{LT.name}", LT.sort, elem_sort, Bool)
+    memw = z3.Function(f"memw_{LT.name}", LT.sort, elem_sort, Int)
+    mk = z3.Const(f"_mem_keys_{LT.name}", LT.sort)
+    mx = z3.Const(f"_mem_x_{LT.name}", elem_sort)
+    mi = z3.Int(f"_mem_i_{LT.name}")
+    TH.axiom(
+        [mk, mx],
+        mem(mk, mx),
+        z3.Implies(mem(mk, mx), z3.And(0 <= memw(mk, mx), memw(mk, mx) < LT.len(mk), LT.at(mk, memw(mk, mx)) == mx)),
+        f"mem.elim.{LT.name}",
+    )
+    TH.axiom(
+        [mk, mx, mi],
+        [mem(mk, mx), LT.at(mk, mi)],
+        z3.Implies(z3.And(0 <= mi, mi < LT.len(mk), LT.at(mk, mi) == mx), mem(mk, mx)),
+        f"mem.intro.{LT.name}",
+    )
+    _mem_cache[key] = (mem, memw)
+    return _mem_cache[key]
+
+
+mem_Int, memw_Int = mem_theory(Int)
 
 # dict.values(): the list of values in key order
 _values_of: dict = {}
 
 
-def values_of(elem_sort):
-    key = elem_sort.name()
+def values_of(elem_sort, key_sort=None):
+    key_sort = key_sort if key_sort is not None else Int
+    key = (elem_sort.name(), key_sort.name())
     if key not in _values_of:
         LT = list_theory(elem_sort)
-        A = z3.ArraySort(Int, elem_sort)
-        F = z3.Function(f"values_{key}", LInt.sort, A, LT.sort)
-        ks = z3.Const(f"_vo_k_{key}", LInt.sort)
-        va = z3.Const(f"_vo_v_{key}", A)
-        i = z3.Int(f"_vo_i_{key}")
-        TH.axiom([ks, va], F(ks, va), LT.len(F(ks, va)) == LInt.len(ks), f"values.len.{key}")
+        KT = list_theory(key_sort)
+        A = z3.ArraySort(key_sort, elem_sort)
+        tag = elem_sort.name() if key_sort == Int else f"{elem_sort.name()}_{key_sort.name()}"
+        F = z3.Function(f"values_{tag}", KT.sort, A, LT.sort)
+        ks = z3.Const(f"_vo_k_{tag}", KT.sort)
+        va = z3.Const(f"_vo_v_{tag}", A)
+        i = z3.Int(f"_vo_i_{tag}")
+        TH.axiom([ks, va], F(ks, va), LT.len(F(ks, va)) == KT.len(ks), f"values.len.{tag}")
         TH.axiom(
             [ks, va, i],
             LT.at(F(ks, va), i),
-            z3.Implies(z3.And(0 <= i, i < LInt.len(ks)), LT.at(F(ks, va), i) == z3.Select(va, LInt.at(ks, i))),
-            f"values.at.{key}",
+            z3.Implies(z3.And(0 <= i, i < KT.len(ks)), LT.at(F(ks, va), i) == z3.Select(va, KT.at(ks, i))),
+            f"values.at.{tag}",
         )
         _values_of[key] = F
     return _values_of[key]
@@ -382,6 +396,48 @@ def skolemize_goal(goal):
     return goal, []
 
 
+def _is_uconst(t):
+    return z3.is_app(t) and t.num_args() == 0 and t.decl().kind() == z3.Z3_OP_UNINTERPRETED
+
+
+def _contains(t, c):
+    acc = {}
+    _subterms(t, acc)
+    return c.get_id() in acc
+
+
+def solve_equalities(ground, foralls, goal_parts, rounds=6):
+    """orient hypotheses `c == t` (c an uninterpreted constant not occurring in t) as
+    rewrite rules and apply them everywhere: a sound preprocessing (the equalities are
+    hypotheses and are kept) that lets the syntactic matcher see through renamings such
+    as `keys' == keys` introduced by loop havoc."""
+    subst = []
+    for _ in range(rounds):
+        found = None
+        for h in ground:
+            if z3.is_eq(h):
+                a, b = h.arg(0), h.arg(1)
+                if _is_uconst(a) and not _is_uconst(b) and not _contains(b, a):
+                    found = (a, b)
+                elif _is_uconst(b) and not _is_uconst(a) and not _contains(a, b):
+                    found = (b, a)
+                elif _is_uconst(a) and _is_uconst(b) and not a.eq(b):
+                    # orient by name so that the older constant (smaller suffix) survives
+                    found = (a, b) if a.get_id() > b.get_id() else (b, a)
+                if found and any(found[0].eq(x) for x, _ in subst):
+                    found = None
+                if found:
+                    break
+        if not found:
+            break
+        subst.append(found)
+        pair = [found]
+        ground = [z3.substitute(h, pair) for h in ground]
+        foralls = [Forall(f.vars, [z3.substitute(t, pair) for t in f.triggers], z3.substitute(f.body, pair), f.name) for f in foralls]
+        goal_parts = [z3.substitute(g, pair) for g in goal_parts]
+    return ground, foralls, goal_parts
+
+
 def check_valid(hyps, goal, extra_axioms=(), timeout_ms=60000, fuel=3, want_model=True):
     """hyps: list of z3 Bool / Forall; goal: z3 Bool / Forall.  Decide hyps |- goal after
     ground instantiation.  Returns (status, info)."""
@@ -389,6 +445,8 @@ def check_valid(hyps, goal, extra_axioms=(), timeout_ms=60000, fuel=3, want_mode
     ground_h = [h for h in hyps if not isinstance(h, Forall)]
     local_ax = [h for h in hyps if isinstance(h, Forall)]
     g, trig_terms = skolemize_goal(goal)
+    ground_h, local_ax, gp = solve_equalities(ground_h, local_ax, [g] + trig_terms)
+    g, trig_terms = gp[0], gp[1:]
     neg = z3.Not(g)
     seeds = ground_h + [neg] + TH.ground + [t == t for t in trig_terms]
     try:
